@@ -6,8 +6,14 @@ Each entry is `fn(w, q, out, ctx) -> result`:
   out  whether an output file is requested; then the entry also checks invariant 3 (file == returned values at the
        written precision) before returning
   ctx  Ctx: the per-call output directory is the cwd during the call; `ctx.obj(key, make)` returns a cached analysis
-       object when the history decided to reuse one (boo_3d / boo_2d / Dynamics / gr / sq instances live across calls
-       in real sessions), else a fresh one.
+       object when the history decided to reuse one (boo_3d / boo_2d / Dynamics / gr / sq / S2 / NematicOrder /
+       HessianMatrix instances live across calls in real sessions), else a fresh one.  `make` leaves the object in the
+       state every method of the chain may start from (S2: particle_s2() has run; NematicOrder: tensor() has run with the
+       neighbour setting that is part of the key), so the expected result of a method never depends on whether the
+       object is shared: a repeated (method, params) call on one live object must reproduce its first result whatever
+       other methods ran on the object in between.
+Which public callables of PyMatterSim each entry exercises is MEASURED (c18_inventory.py traces one run of every
+(entry, params, out)), not declared.
 The result is a plain structure of arrays / DataFrames / strings that `c18_world.same` can compare.  For routines that
 return None and only write files (neighbour writers, Voronoi, Hessian) the parsed/decoded files are the result.
 """
@@ -79,6 +85,22 @@ triangle_area = _Lazy("PyMatterSim.utils.geometry", "triangle_area")
 remove_pbc = _Lazy("PyMatterSim.utils.pbc", "remove_pbc")
 write_data_header = _Lazy("PyMatterSim.writer.lammps_writer", "write_data_header")
 write_dump_header = _Lazy("PyMatterSim.writer.lammps_writer", "write_dump_header")
+convert_configuration = _Lazy("PyMatterSim.neighbors.freud_neighbors", "convert_configuration")
+get_input = _Lazy("PyMatterSim.neighbors.voropp_neighbors", "get_input")
+indicehis = _Lazy("PyMatterSim.neighbors.voropp_neighbors", "indicehis")
+PairInteractions = _Lazy("PyMatterSim.static.hessians", "PairInteractions")
+kspace_decomposition = _Lazy("PyMatterSim.static.vector", "kspace_decomposition")
+atomic_position_average = _Lazy("PyMatterSim.utils.coarse_graining", "atomic_position_average")
+fits = _Lazy("PyMatterSim.utils.fitting", "fits")
+DumpReader = _Lazy("PyMatterSim.reader.dump_reader", "DumpReader")
+DumpFileType = _Lazy("PyMatterSim.reader.reader_utils", "DumpFileType")
+read_lammpslog = _Lazy("PyMatterSim.reader.simulation_log", "read_lammpslog")
+
+
+def _mod(name):
+    import importlib
+    return importlib.import_module("PyMatterSim." + name)
+
 
 CATALOGUE = {}
 FAMILIES = {}
@@ -156,6 +178,20 @@ def e_gr_unary(w, q, out, ctx):
     return res
 
 
+_KARY = ["unary", "binary", "ternary", "quarternary", "quinary"]
+
+
+@entry("gr.k-ary", "pair", [{"rd": 0.1, "s": "x"}, {"rd": 0.08, "s": "xu"}], tri=True, out=True)
+def e_gr_kary(w, q, out, ctx):
+    """gr.binary() / .ternary() / .quarternary() / .quinary() called directly (the method for the number of species)."""
+    of = "grk.csv" if out else None
+    g = ctx.obj(("gr", q["rd"], q["s"], out, "k"), lambda: gr(w.snaps[q["s"]], ppp=w.A["ppp"], rdelta=q["rd"], outputfile=of))
+    res = getattr(g, _KARY[w.K - 1])()
+    if out:
+        _csv_check("gr." + _KARY[w.K - 1], of, res)
+    return res
+
+
 def _condition(w, kind, n):
     if kind == "bool":
         return w.A["mask"][n], None
@@ -176,7 +212,11 @@ def e_cgr(w, q, out, ctx):
 
 
 _SQ_P = [{"m": "range", "qr": 8.0, "op": False}, {"m": "range", "qr": 10.0, "op": True}, {"m": "vec"},
-         {"m": "range", "qr": 8.0, "op": "x"}]
+         {"m": "range", "qr": 8.0, "op": "x"}, {"m": "range", "qr": 9.0, "op": "y"}, {"m": "range", "qr": 8.0, "op": "z"}]
+
+
+def _sq_ok(w, q):
+    return not (q.get("op") == "z" and w.d == 2)  # 'z' selects nothing in 2D (documented for 3D boxes)
 
 
 def _sq_obj(w, q, out, ctx, of, tag):
@@ -189,6 +229,8 @@ def _sq_obj(w, q, out, ctx, of, tag):
 
 @entry("sq.getresults", "pair", _SQ_P, out=True)
 def e_sq(w, q, out, ctx):
+    if not _sq_ok(w, q):
+        q = _SQ_P[3]
     of = "sq.csv" if out else None
     res = _sq_obj(w, q, out, ctx, of, "sq").getresults()
     if out:
@@ -203,6 +245,16 @@ def e_sq_unary(w, q, out, ctx):
     res = _sq_obj(w, q, out, ctx, of, "sq1").unary()
     if out:
         _csv_check("sq.unary", of, res)
+    return res
+
+
+@entry("sq.k-ary", "pair", _SQ_P[:4], out=True)
+def e_sq_kary(w, q, out, ctx):
+    """sq.binary() / .ternary() / .quarternary() / .quinary() called directly (the method for the number of species)."""
+    of = "sqk.csv" if out else None
+    res = getattr(_sq_obj(w, q, out, ctx, of, "sqk"), _KARY[w.K - 1])()
+    if out:
+        _csv_check("sq." + _KARY[w.K - 1], of, res)
     return res
 
 
@@ -433,13 +485,16 @@ def _sq4_params(w):
                         {"m": "both", "cal": "slow"}) if c["cal"] in w.sq4_ok]
 
 
-@entry("Dynamics.sq4", "dyn", [{"i": 0}, {"i": 1}], out=True, ok=lambda w: bool(w.sq4_ok))
+@entry("Dynamics.sq4", "dyn", [{"i": 0, "cond": False}, {"i": 1, "cond": False}, {"i": 0, "cond": True}, {"i": 1, "cond": True}],
+       out=True, ok=lambda w: bool(w.sq4_ok))
 def e_sq4(w, q, out, ctx):
     ps = _sq4_params(w)
     c = dict(ps[q["i"] % len(ps)], nb=False)
     of = "sq4.csv" if out else ""
     d = _dyn(Dynamics, w, c, ctx, "dyn")
-    res = d.sq4(t=w.step * w.dt, qrange=8.0, condition=None, outputfile=of)
+    # a condition is only passed where the selected AND mobile subset is non-empty in every origin frame
+    cond = w.A["mask"] if q["cond"] and c["cal"] in w.sq4_ok_cond else None
+    res = d.sq4(t=w.step * w.dt, qrange=8.0, condition=cond, outputfile=of)
     if out:
         _csv_check("Dynamics.sq4", of, res)
     return res
@@ -553,19 +608,49 @@ def e_ta(w, q, out, ctx):
 
 # ============================================================================= local order / shape
 
-@entry("S2.particle_s2", "order", [{"gr": False}, {"gr": True}], tri=True, out=True)
+def _s2(w, ctx):
+    """One S2 object per history when reuse is drawn; particle_s2() has run, so every method may be called."""
+    def make():
+        o = S2(w.snaps["x"], sigmas=w.A["s2sig"], ppp=w.A["ppp"], rdelta=0.05, ndelta=24)
+        o.particle_s2()
+        return o
+    return ctx.obj(("S2",), make)
+
+
+@entry("S2.particle_s2", "s2", [{"gr": False}, {"gr": True}], tri=True, out=True)
 def e_s2(w, q, out, ctx):
     of = "s2.npy" if out else ""
-    obj = S2(w.snaps["x"], sigmas=w.A["s2sig"], ppp=w.A["ppp"], rdelta=0.05, ndelta=24)
-    if q["gr"] and out:
+    obj = _s2(w, ctx)
+    if q["gr"]:
         s, g = obj.particle_s2(savegr=True, outputfile=of)
-        _npy_check("S2.particle_s2", of, s)
-        _npy_check("S2.particle_s2(savegr)", "particle_gr." + of, g)
+        if out:
+            _npy_check("S2.particle_s2", of, s)
+        _npy_check("S2.particle_s2(savegr)", "particle_gr." + (of or ".npy"), g)  # np.save appends .npy to 'particle_gr.'
         return (s, g, obj.s2_results)
     s = obj.particle_s2(savegr=False, outputfile=of)
     if out:
         _npy_check("S2.particle_s2", of, s)
     return (s, obj.s2_results)
+
+
+@entry("S2.spatial_corr", "s2", [{"mn": False}, {"mn": True}], tri=True, out=True)
+def e_s2_sc(w, q, out, ctx):
+    of = "s2_gl.csv" if out else ""
+    obj = _s2(w, ctx)
+    res = obj.spatial_corr(mean_norm=q["mn"], outputfile=of)
+    if out:
+        _csv_check("S2.spatial_corr", of, res)
+    return (res, obj.s2_results)
+
+
+@entry("S2.time_corr", "s2", [{"dt": 0.002}, {"dt": 0.005}], tri=True, out=True)
+def e_s2_tc(w, q, out, ctx):
+    of = "s2_t.csv" if out else ""
+    obj = _s2(w, ctx)
+    res = obj.time_corr(dt=q["dt"], outputfile=of)
+    if out:
+        _csv_check("S2.time_corr", of, res)
+    return (res, obj.s2_results)
 
 
 @entry("q8_tetrahedral", "order", [{"s": "x"}, {"s": "xu"}], dims=(3,), tri=True, out=True)
@@ -577,15 +662,45 @@ def e_q8(w, q, out, ctx):
     return res
 
 
-@entry("NematicOrder.tensor", "order", [{"nb": False, "ev": False}, {"nb": True, "ev": True}, {"nb": True, "ev": False},
-                                        {"nb": False, "ev": True}], dims=(2,), out=True)
+def _nem(w, nb, ctx):
+    """One NematicOrder object per (history, neighbour setting); tensor() has run, so QIJ is defined."""
+    def make():
+        o = NematicOrder(w.snaps["orient"], w.snaps["x"])
+        o.tensor(ndim=2, neighborfile=w.files["neigh"] if nb else "", Nmax=30, outputfile="init")
+        return o
+    return ctx.obj(("nematic", nb), make)
+
+
+@entry("NematicOrder.tensor", "nematic", [{"nb": False, "ev": False}, {"nb": True, "ev": True}, {"nb": True, "ev": False},
+                                          {"nb": False, "ev": True}], dims=(2,), tri=True, out=True)
 def e_nem(w, q, out, ctx):
     of = "nem" if out else ""
-    no = NematicOrder(w.snaps["orient"], w.snaps["x"])
+    no = _nem(w, q["nb"], ctx)
     res = no.tensor(ndim=2, neighborfile=w.files["neigh"] if q["nb"] else "", Nmax=30, eigvals=q["ev"], outputfile=of)
     # the side files are written unconditionally (with an empty prefix when no name is given)
     _npy_check("NematicOrder.tensor(Q)", of + (".QIJ_cg.npy" if q["nb"] else ".QIJ_raw.npy"), no.QIJ)
     _npy_check("NematicOrder.tensor", of + (".eigval.npy" if q["ev"] else ".Qtrace.npy"), res)
+    return (res, no.QIJ)
+
+
+@entry("NematicOrder.spatial_corr", "nematic", [{"nb": False, "rd": 0.1}, {"nb": True, "rd": 0.1}, {"nb": False, "rd": 0.07}],
+       dims=(2,), tri=True, out=True)
+def e_nem_sc(w, q, out, ctx):
+    of = "nem_g.csv" if out else ""
+    no = _nem(w, q["nb"], ctx)
+    res = no.spatial_corr(rdelta=q["rd"], ppp=w.A["ppp"], outputfile=of)
+    if out:
+        _csv_check("NematicOrder.spatial_corr", of, res)
+    return (res, no.QIJ)
+
+
+@entry("NematicOrder.time_corr", "nematic", [{"nb": False}, {"nb": True}], dims=(2,), tri=True, out=True)
+def e_nem_tc(w, q, out, ctx):
+    of = "nem_t.csv" if out else ""
+    no = _nem(w, q["nb"], ctx)
+    res = no.time_corr(dt=w.dt, outputfile=of)
+    if out:
+        _csv_check("NematicOrder.time_corr", of, res)
     return (res, no.QIJ)
 
 
@@ -605,28 +720,53 @@ def e_pc(w, q, out, ctx):
 
 # ============================================================================= Hessian
 
-_HS = [{"model": "lj", "shift": True, "n": 0}, {"model": "ipl", "shift": False, "n": 1}, {"model": "hz", "shift": True, "n": 0}]
+_HS = [{"model": "lj", "shift": True, "n": 0, "se": True, "sh": True}, {"model": "ipl", "shift": False, "n": 1, "se": True, "sh": False},
+       {"model": "hz", "shift": True, "n": 0, "se": False, "sh": True}, {"model": "lj", "shift": False, "n": 1, "se": False, "sh": False}]
 
 
-@entry("HessianMatrix.diagonalize_hessian", "hess", [{"i": 0}, {"i": 1}, {"i": 2}], tri=True, out=True)
-def e_hess(w, q, out, ctx):
-    c = _HS[q["i"]]
+def _hess_setup(w, c, ctx):
     if c["model"] == "lj":
         ip, sig, rc = InteractionParams(model_name=ModelName.lennard_jones), w.A["hsig"], w.A["hrc"]
     elif c["model"] == "ipl":
         ip, sig, rc = InteractionParams(model_name=ModelName.inverse_power_law, ipl_n=10, ipl_A=1.0), w.A["hsig"], w.A["hrc"]
     else:
         ip, sig, rc = InteractionParams(model_name=ModelName.harmonic_hertz, harmonic_hertz_alpha=2.5), w.A["hsig_hz"], w.A["hrc_hz"]
-    h = HessianMatrix(snapshot=w.snaps["x"].snapshots[c["n"]], masses=w.masses, epsilons=w.A["heps"], sigmas=sig,
-                      r_cuts=rc, ppp=w.A["ppp"], shiftpotential=c["shift"])
+    h = ctx.obj(("hess", c["model"] == "hz", c["n"], c["shift"]),
+                lambda: HessianMatrix(snapshot=w.snaps["x"].snapshots[c["n"]], masses=w.masses, epsilons=w.A["heps"], sigmas=sig,
+                                      r_cuts=rc, ppp=w.A["ppp"], shiftpotential=c["shift"]))
+    return ip, h
+
+
+@entry("HessianMatrix.diagonalize_hessian", "hess", [{"i": 0}, {"i": 1}, {"i": 2}, {"i": 3}], tri=True, out=True)
+def e_hess(w, q, out, ctx):
+    c = _HS[q["i"]]
+    ip, h = _hess_setup(w, c, ctx)
     base = "hess" if out else ip.model_name.name
-    ret = h.diagonalize_hessian(ip, saveevecs=bool(out), savehessian=bool(out), outputfile="hess" if out else "")
+    ret = h.diagonalize_hessian(ip, saveevecs=c["se"], savehessian=c["sh"], outputfile="hess" if out else "")
     res = {"ret": ret, "omega_PR": pd.read_csv(need_file(base + ".omega_PR.csv", "diagonalize_hessian"),
                                                float_precision="round_trip")}
-    if out:
+    if c["se"]:
         res["evecs"] = np.load(need_file(base + ".evecs.npy", "diagonalize_hessian"))
+    if c["sh"]:
         res["hessian"] = np.load(need_file(base + ".hessianmatrix.npy", "diagonalize_hessian"))
     return res
+
+
+@entry("HessianMatrix.pair_matrix", "hess", [{"i": 0}, {"i": 2}], tri=True)
+def e_hess_pm(w, q, out, ctx):
+    _, h = _hess_setup(w, _HS[q["i"]], ctx)
+    a, b = h.pair_matrix(w.A["rji"], w.dudrs)
+    return (a, b)
+
+
+@entry("PairInteractions", "hess", [{"shift": True}, {"shift": False}], tri=True)
+def e_pairint(w, q, out, ctx):
+    """Pair-potential derivatives [s1, s1rc, s2] through caller() for the three models and through the model methods."""
+    pi = PairInteractions(r=0.95, epsilon=1.2, sigma=1.1, r_c=2.5, shift=q["shift"])
+    ips = [InteractionParams(model_name=ModelName.lennard_jones),
+           InteractionParams(model_name=ModelName.inverse_power_law, ipl_n=10, ipl_A=1.0),
+           InteractionParams(model_name=ModelName.harmonic_hertz, harmonic_hertz_alpha=2.5)]
+    return ([pi.caller(ip) for ip in ips], pi.lennard_jones(), pi.inverse_power_law(n=12, A=0.5), pi.harmonic_hertz(alpha=2.0))
 
 
 # ============================================================================= small utilities / writer
@@ -655,10 +795,11 @@ def e_s2i(w, q, out, ctx):
     return s2_integral(w.A["grpos"], w.A["grbins"], ndim=w.d)
 
 
-@entry("Filon_COS", "misc", [{"a": 0}, {"a": 3.0}], tri=True, out=True)
+@entry("Filon_COS", "misc", [{"a": 0, "odd": False}, {"a": 3.0, "odd": False}, {"a": 0, "odd": True}], tri=True, out=True)
 def e_filon(w, q, out, ctx):
     of = "filon.csv" if out else ""
-    res = Filon_COS(w.A["filC"], w.A["filT"], a=q["a"], outputfile=of)
+    sfx = "_odd" if q["odd"] else ""
+    res = Filon_COS(w.A["filC" + sfx], w.A["filT" + sfx], a=q["a"], outputfile=of)
     if out:
         _csv_check("Filon_COS", of, res)
     return res
@@ -668,3 +809,154 @@ def e_filon(w, q, out, ctx):
 def e_tri(w, q, out, ctx):
     sn = w.snaps["x"].snapshots[q["n"]]
     return triangle_area(sn.positions[:3], sn.hmatrix, w.A["ppp"])
+
+
+@entry("convert_configuration", "voro", [{"s": "x"}, {"s": "xu"}])
+def e_convcfg(w, q, out, ctx):
+    boxes, points = convert_configuration(w.snaps[q["s"]])
+    return ([np.array([b.Lx, b.Ly, b.Lz, b.xy, b.xz, b.yz]) for b in boxes], list(points))
+
+
+@entry("voropp.get_input", "voro", [{"s": "x"}, {"s": "xu"}], tri=True)
+def e_getinput(w, q, out, ctx):
+    position, bounds = get_input(w.snaps[q["s"]], w.radii)
+    return (list(position), list(bounds))
+
+
+@entry("voropp.indicehis", "voro", [{}], tri=True, out=True)
+def e_indicehis(w, q, out, ctx):
+    of = "indices.dat" if out else None
+    ret = indicehis(w.files["voroindex"], outputfile=of)
+    return (ret, _text(of, "indicehis") if out else None)
+
+
+@entry("stubs", "misc", [{}], tri=True)
+def e_stubs(w, q, out, ctx):
+    """The two placeholders of the public API (bodies are `pass`)."""
+    return (kspace_decomposition(), atomic_position_average())
+
+
+# ============================================================================= utils: funcs / geometry / wave vectors / harmonics / fitting
+
+@entry("funcs.factors", "utils", [{"nd": 2}, {"nd": 3}], tri=True)
+def e_factors(w, q, out, ctx):
+    f = _mod("utils.funcs")
+    return (f.kronecker(1, q["nd"] - 1), f.kronecker(2, 3), f.nidealfac(q["nd"]), f.areafac(q["nd"]), f.alpha2factor(q["nd"]),
+            f.Legendre_polynomials(w.A["dist"], q["nd"]), f.grid_gaussian(w.A["dist"], sigma=0.5), f.grid_gaussian(w.A["dist"]))
+
+
+@entry("moment_of_inertia", "utils", [{"m": 1, "mat": False}, {"m": 2, "mat": True}], tri=True)
+def e_moi(w, q, out, ctx):
+    return _mod("utils.funcs").moment_of_inertia(w.A["moi"], m=q["m"], matrix=q["mat"])
+
+
+@entry("Wignerindex", "utils", [{"l": 2}, {"l": 1}], tri=True)
+def e_wigner(w, q, out, ctx):
+    return _mod("utils.funcs").Wignerindex(q["l"])
+
+
+@entry("geometry.lines", "utils", [{"k": 0}, {"k": 1}], tri=True)
+def e_lines(w, q, out, ctx):
+    g = _mod("utils.geometry")
+    S = w.A["square"]
+    v = w.A["direction"] if q["k"] == 0 else -w.A["direction"]
+    return (g.triangle_angle(3.0, 4.0 + q["k"], 5.0), g.lines_intersection(S[0], S[2], S[1], S[3]),
+            g.LineWithinSquare(S[0], S[1], S[2], S[3], w.A["inside"], v))
+
+
+_OP = [False, True, "x", "y", "z"]
+
+
+@entry("choosewavevector", "utils", [{"op": k, "n": 6 + (k % 2)} for k in range(5)], tri=True)
+def e_choosewv(w, q, out, ctx):
+    op = _OP[q["op"]]
+    if op == "z" and w.d == 2:
+        op = "y"  # 'z' is documented for three-dimensional boxes
+    return _mod("utils.wavevector").choosewavevector(w.d, q["n"], op)
+
+
+@entry("wavevector.tables", "utils", [{"n": 4, "op": False}, {"n": 5, "op": True}], tri=True)
+def e_wvtables(w, q, out, ctx):
+    m = _mod("utils.wavevector")
+    return (m.wavevector2d(q["n"]) if w.d == 2 else m.wavevector3d(q["n"]), m.continuousvector(w.d, q["n"], onlypositive=q["op"]))
+
+
+@entry("spherical_harmonics", "utils", [{"l": k} for k in range(0, 13)], tri=True)
+def e_sph(w, q, out, ctx):
+    m = _mod("utils.spherical_harmonics")
+    l_ = q["l"]
+    res = []
+    for theta, phi in w.angles:
+        if l_ == 0:
+            res.append((m.SphHarm0(), m.sph_harm(0, 0, abs(phi), theta)))
+        elif l_ <= 10:
+            res.append((getattr(m, f"SphHarm{l_}")(theta, phi), m.sph_harm_l(l_, theta, phi)))
+        else:
+            res.append((m.SphHarm_above(l_, theta, phi), m.sph_harm_l(l_, theta, phi)))
+    return res
+
+
+def _fitfunc(x, a, b):
+    return a * np.exp(-b * x)
+
+
+@entry("fits", "utils", [{"p0": False, "b": False, "style": "linear", "r": False}, {"p0": True, "b": False, "style": "log", "r": True},
+                         {"p0": True, "b": True, "style": "linear", "r": True}, {"p0": False, "b": True, "style": "log", "r": False}],
+       tri=True)
+def e_fits(w, q, out, ctx):
+    kw = {}
+    if q["p0"]:
+        kw["p0"] = [1.5, 0.5]
+    if q["b"]:
+        kw["bounds"] = ([0.0, 0.0], [10.0, 10.0])
+    if q["r"]:
+        kw.update(rangea=0.25, rangeb=4.0)
+    return list(fits(_fitfunc, w.A["fitx"], w.A["fity"], style=q["style"], **kw))
+
+
+# ============================================================================= LAMMPS readers (their inputs are files, a dict and a list)
+
+def _snap_struct(snaps):
+    if snaps is None:
+        return None
+    one = lambda s: {"timestep": s.timestep, "nparticle": s.nparticle, "particle_type": s.particle_type, "positions": s.positions,  # noqa: E731
+                     "boxlength": s.boxlength, "boxbounds": s.boxbounds, "realbounds": s.realbounds, "hmatrix": s.hmatrix}
+    if hasattr(snaps, "snapshots"):
+        return {"nsnapshots": snaps.nsnapshots, "frames": [one(s) for s in snaps.snapshots]}
+    return one(snaps)
+
+
+@entry("DumpReader.read_onefile", "reader", [{"t": "LAMMPS"}, {"t": "LAMMPSCENTER"}, {"t": "LAMMPSVECTOR"}], tri=True)
+def e_dumpreader(w, q, out, ctx):
+    kw = {}
+    if q["t"] == "LAMMPSCENTER":
+        kw["moltypes"] = w.moltypes
+    if q["t"] == "LAMMPSVECTOR":
+        kw["columnsids"] = w.columnsids
+    r = ctx.obj(("reader", q["t"]), lambda: DumpReader(w.files["dump"], ndim=w.d, filetype=getattr(DumpFileType, q["t"]), **kw))
+    ret = r.read_onefile()
+    return (ret, _snap_struct(r.snapshots))
+
+
+@entry("lammps_reader_helper", "reader", [{"f": "wrapper"}, {"f": "center"}, {"f": "vector"}, {"f": "frame"}, {"f": "additions"}],
+       tri=True)
+def e_lammps_helpers(w, q, out, ctx):
+    m = _mod("reader.lammps_reader_helper")
+    if q["f"] == "wrapper":
+        return _snap_struct(m.read_lammps_wrapper(w.files["dump"], w.d))
+    if q["f"] == "center":
+        return _snap_struct(m.read_lammps_centertype_wrapper(w.files["dump"], w.d, w.moltypes))
+    if q["f"] == "vector":
+        return _snap_struct(m.read_lammps_vector_wrapper(w.files["dump"], w.d, w.columnsids))
+    if q["f"] == "frame":
+        with open(w.files["dump"], "r", encoding="utf-8") as f:
+            a = m.read_lammps(f, w.d)
+            b = m.read_lammps_vector(f, w.d, w.columnsids)
+            c = m.read_lammps_centertype(f, w.d, w.moltypes) if w.T > 2 else None
+        return [_snap_struct(a), _snap_struct(b), _snap_struct(c)]
+    return m.read_additions(w.files["dump"], w.d + 2 + w.d)
+
+
+@entry("read_lammpslog", "reader", [{}], tri=True)
+def e_lammpslog(w, q, out, ctx):
+    return list(read_lammpslog(w.files["log"]))
